@@ -42,7 +42,7 @@ BInit == /\ G \in AllSimple(N, WS) /\ S \in SUBSET EIdx(G) /\ v \in V(G) /\ lim 
          /\ queue = [f \in 1..2 |-> {SourceOf(f)}]
          /\ turn = 1 /\ best = Inf /\ done = FALSE /\ result = -1
 Limited == lim # 0
-MinQ(f) == Min({dist[f][x] : x \in queue[f]})
+MinQ(f) == IF queue[f] = {} THEN Inf ELSE Min({dist[f][x] : x \in queue[f]})
 Stop == queue[turn] = {} \/ queue[3 - turn] = {} \/ (best < Inf /\ ~(MinQ(turn) + MinQ(3 - turn) < best))
 Finish == /\ ~done /\ Stop
           /\ done' = TRUE
